@@ -367,8 +367,8 @@ Qed.
 
 (* ---- WHICH replies, for whole histories: the exact sequence of messages handed to Broker.send (no NoDup needed: nothing here
    depends on the ids being distinct) -- for every call its `error` (with FailureSlicer's state of its exception) or its `answer` as
-   reply_of says, in arrival order, nothing else; the connection stays up.  Every hypothesis is exact (delivery_guard_exact,
-   rejected_guard_exact). *)
+   reply_of says, in the order of the history (the order in which the callee concludes the calls: Callee.handle_all), nothing else;
+   the connection stays up.  Every hypothesis is exact (delivery_guard_exact, rejected_guard_exact). *)
 Lemma handle_reply i s : cup s = true -> inbound_ok1 i ->
   sent (handle i s) = sent s ++ reply_of i /\ cup (handle i s) = true.
 Proof.
